@@ -235,9 +235,12 @@ def emit_def(name, params, stmts, alias=None):
         raise Untranslatable('expected exactly one output parameter')
     out = outs[0]
     ren = {p: 'p_' + p for p in order}
+    overlay = False
     if alias:
         ren[alias[0]] = 'p_io'
         ren[alias[1]] = 'p_io'
+        # a [2] vector output overlaid on the [2][2] input: zi[k] is the memory of m[0][k]
+        overlay = params[alias[1]]['shape'] == 'V2'
     env = dict(
         var=lambda n: 'l_' + n,
         load=lambda n, idx: '%s.%s' % (ren[n], field(params[n]['shape'], idx)),
@@ -250,16 +253,21 @@ def emit_def(name, params, stmts, alias=None):
         if ren[p] in seen:
             continue
         seen.add(ren[p])
-        args.append('(%s : %s K)' % (ren[p], params[p]['shape']))
+        args.append('(%s : %s K)' % (ren[p], 'M2' if ren[p] == 'p_io' else params[p]['shape']))
     lines = ['def %s (cj sqa : K → K) %s : %s K :=' % (name, ' '.join(args), params[out]['shape'])]
     for st in stmts:
         if st[0] == 'let':
             lines.append('  let l_%s := %s' % (st[1], lean_expr(st[2], env)))
         else:
             p = ren[st[1]]
-            lines.append('  let %s := { %s with %s := %s }' % (
-                p, p, field(params[st[1]]['shape'], st[2]), lean_expr(st[3], env)))
-    lines.append('  ' + ren[out])
+            fld = field(params[st[1]]['shape'], st[2])
+            if overlay and st[1] == alias[1]:
+                fld = 'm1%d' % (st[2][0] + 1)
+            lines.append('  let %s := { %s with %s := %s }' % (p, p, fld, lean_expr(st[3], env)))
+    if overlay:
+        lines.append('  { x1 := p_io.m11, x2 := p_io.m12 }')
+    else:
+        lines.append('  ' + ren[out])
     return '\n'.join(lines)
 
 
@@ -558,6 +566,12 @@ def emit_theorems(fn, params, stmts):
                 L += ['  ' + t for t in body]
             L.append('')
             names.append('%s_port%d' % (fn, port))
+        L.append('/-- the output vector overlaid on the input matrix (`fn(m, &m[0][0], z0)`, what vnadata_convert does in place;\n'
+                 '    store-sequence semantics of the C text) gives the result of the call with separate arrays -/')
+        L.append('theorem %s_alias (cj sqa : K → K) (m : M2 K)%s (out0 : V2 K) :\n'
+                 '    %s_alias cj sqa m%s = %s := by\n  rfl' % (fn, zbind, fn, zarg, call))
+        names.append(fn + '_alias')
+        L.append('')
         L.append('theorem %s_out_indep (cj sqa : K → K) (m : M2 K)%s (o1 o2 : V2 K) :\n'
                  '    %s = %s := by\n  rfl' % (fn, zbind, mkcall(fn, 'o1'), mkcall(fn, 'o2')))
         names.append(fn + '_out_indep')
@@ -623,7 +637,7 @@ def main():
                 raise Untranslatable('unexpected signature')
             d = emit_def(fn, params, stmts)
             txt = d
-            alias_ok = params[out[0]]['shape'] == 'M2'
+            alias_ok = params[out[0]]['shape'] in ('M2', 'V2')
             if alias_ok:
                 txt += '\n\n' + emit_def(fn + '_alias', params, stmts, alias=(ins[0], out[0]))
             thm, names, divs = emit_theorems(fn, params, stmts)
@@ -672,7 +686,7 @@ def main():
             T.append('  | "%s" => let r := if ali then %s_alias CF.conj CF.sqa %s else %s CF.conj CF.sqa %s' % (fn, fn, args(True), fn, args(False)))
             T.append('      some [r.m11, r.m12, r.m21, r.m22]')
         else:
-            T.append('  | "%s" => if ali then none else let r := %s CF.conj CF.sqa %s' % (fn, fn, args(False)))
+            T.append('  | "%s" => let r := if ali then %s_alias CF.conj CF.sqa %s else %s CF.conj CF.sqa %s' % (fn, fn, args(True), fn, args(False)))
             T.append('      some [r.x1, r.x2]')
     T += ['  | _ => none', 'end Libvna.Gen', '']
     write_if_changed(LEAN + '/Libvna/Gen/Conv2Table.lean', '\n'.join(T))
